@@ -166,7 +166,7 @@ func payloadFields(id string, task, seq, size int) []log.Field {
 // that the expected file:line is known exactly.
 func emit(task, seq int, tag *log.Tag, tagName string, op EvOp, level log.Level) *Submitted {
 	k := evKey{task: task, seq: seq, ctxMode: op.Ctx}
-	ctx := context.WithValue(context.Background(), ctxKey, k)
+	ctx := callerContext(k, op.Ctx)
 	id := fmt.Sprintf("t%ds%d", task, seq)
 	s := &Submitted{ID: id, Task: task, Seq: seq, Tag: tagName, Time: evTime(k), Level: entryLevels[op.Kind]}
 	if op.Ctx&1 != 0 {
@@ -296,6 +296,24 @@ func emitDirect(l log.Logger, task, seq int, tagName string, op EvOp) *Submitted
 		s.Returned = true
 	}
 	return s
+}
+
+// callerContext builds the caller's context. Bits 4 and 8 of mode make it a context that is
+// already done (cancelled / past its deadline): "arbitrary contexts" includes those, and the
+// hooks must still be handed exactly this context.
+func callerContext(k evKey, mode int) context.Context {
+	ctx := context.WithValue(context.Background(), ctxKey, k)
+	switch {
+	case mode&4 != 0:
+		c, cancel := context.WithCancel(ctx)
+		cancel()
+		return c
+	case mode&8 != 0:
+		c, cancel := context.WithDeadline(ctx, time.Unix(1, 0))
+		_ = cancel
+		return c
+	}
+	return ctx
 }
 
 func ctxFor(task, seq int) context.Context {
